@@ -27,11 +27,19 @@ type sklCfg struct {
 	Keys      int  `json:"keys"`    // distinct user keys
 	PerTask   int  `json:"pertask"` // inserts per inserter
 	Dups      bool `json:"dups"`    // inserters deliberately collide on (key,seqnum)
+	// Inserter: every task inserts through its own arenaskl.Inserter (cached
+	// splice), as memTable.apply does for concurrently committed batches.
+	Inserter bool `json:"inserter,omitempty"`
+	// Ascending: each task inserts its keys in ascending order, which is what
+	// keeps a cached splice valid from one insert to the next.
+	Ascending bool `json:"ascending,omitempty"`
 }
 
 func (e *sklEngine) Generate(profile string, seed uint64, tier string) (*Plan, error) {
 	r := simrt.NewRng(seed, 5000)
 	c := sklCfg{Inserters: 2 + r.IntN(3), Readers: r.IntN(3), Keys: 2 + r.IntN(10), PerTask: 2 + r.IntN(8), Dups: r.IntN(2) == 0}
+	c.Inserter = r.IntN(2) == 0
+	c.Ascending = c.Inserter && r.IntN(2) == 0
 	if tier == "thorough" {
 		c.PerTask = 2 + r.IntN(20)
 	}
@@ -82,6 +90,12 @@ func (e *sklEngine) Execute(t *testing.T, plan *Plan, res *Result) {
 				plans[i] = append(plans[i], ins{k, fmt.Sprintf("t%d.%d", i, j)})
 			}
 		}
+		if c.Ascending {
+			for i := range plans {
+				p := plans[i]
+				sort.SliceStable(p, func(a, b int) bool { return p[a].key.k < p[b].key.k })
+			}
+		}
 		attemptedKeys := map[sklKey]bool{}
 		for _, p := range plans {
 			for _, in := range p {
@@ -128,9 +142,15 @@ func (e *sklEngine) Execute(t *testing.T, plan *Plan, res *Result) {
 			wg.Add(1)
 			simrt.Go("inserter", func() {
 				defer wg.Done()
+				var inserter arenaskl.Inserter
 				for _, in := range plans[i] {
 					ik := base.MakeInternalKey([]byte(in.key.k), base.SeqNum(in.key.seq), base.InternalKeyKindSet)
-					err := skl.Add(ik, []byte(in.val))
+					var err error
+					if c.Inserter {
+						err = inserter.Add(skl, ik, []byte(in.val))
+					} else {
+						err = skl.Add(ik, []byte(in.val))
+					}
 					switch err {
 					case nil:
 						if w, dup := success[in.key]; dup {
